@@ -145,6 +145,40 @@ def symmetric_merge_rule(cx, rep, rid):
     rep.floor(rid, "binary merge functions over Runtype operands", n, 2)
 
 
+def sibling_tables_rule(cx, rep, rid):
+    """The discriminated-union validator gets two tables keyed by tag: the one validate()/parse/hash256 dispatch on and
+    the one schema() prints.  Both must select the variants of a tag in the same way; they are built either by one
+    function called twice or by two pieces of code that must stay alpha-equivalent.  Decided: every `ObjectLit`
+    construction whose properties come from mapping the discriminator values has the same structural shape."""
+    from facts import hir_shape
+    F = cx.rs
+    n = 0
+    for g in sorted(F.hir):
+        f = F.fns.get(g)
+        if f is None or "/src/print/" not in (f.file or ""):
+            continue
+        tree = F.hir[g]
+        if not any(x["k"] == "Lit" and x.get("v") == "AnyOfDiscriminatedRuntype" for x in walk(tree["body"])):
+            continue
+        n += 1
+        tables = []
+        # (tables built inline in this function; when a refactoring has moved the construction into one helper that
+        # is called twice there is a single piece of code and nothing to compare)
+        for x in walk(tree["body"]):
+            if x["k"] == "Struct" and (x.get("def") or "").endswith("ObjectLit"):
+                props = [fl["e"] for fl in x["fields"] if fl["name"] == "props"]
+                if props and any(y["k"] == "Closure" for y in walk(props[0])):
+                    tables.append(props[0])
+        shapes = {hir_shape(t) for t in tables}
+        if not tables:
+            rep.ob(rid, "%s/tables-agree" % f.id.rsplit("::", 1)[-1], True, sample={"fn": f.id, "tables": "built elsewhere (shared builder)"})
+            continue
+        rep.ob(rid, "%s/tables-agree" % f.id.rsplit("::", 1)[-1], len(shapes) == 1,
+               "%s builds %d tag tables for AnyOfDiscriminatedRuntype with %d different pieces of code: the table validate() dispatches on and the one schema() prints select the variants of a tag differently, so validator, schema and hash256 of the same type disagree" % (f.id, len(tables), len(shapes)),
+               "%s:%s" % (f.file, tables[-1]["line"]), sample={"fn": f.id, "tables": len(tables), "distinct_shapes": len(shapes)})
+    rep.floor(rid, "functions constructing AnyOfDiscriminatedRuntype", n, 1)
+
+
 def run(cx, rep):
     F = cx.rs
     rep.explanation = (
@@ -280,6 +314,8 @@ def run(cx, rep):
     # ---------------------------------------------------------------- C08.5
     rep.rule("C08.5", "merging intersection members into one object is order-independent")
     all_of_merge_rule(cx, rep, "C08.5")
+    rep.rule("C08.7", "the dispatch table and the schema table of a discriminated union are built alike")
+    sibling_tables_rule(cx, rep, "C08.7")
     rep.rule("C08.6", "binary merges of set-ordered members treat both operands alike")
     symmetric_merge_rule(cx, rep, "C08.6")
     # ---------------------------------------------------------------- C08.4
